@@ -120,7 +120,9 @@ func (cmd *RequestCommand) SuccessResponse() *ResponseCommand {
 // SuccessResponseWithResource creates a success response Command for the current request.
 func (cmd *RequestCommand) SuccessResponseWithResource(resource Document) *ResponseCommand {
 	respCmd := cmd.SuccessResponse()
-	respCmd.Resource = resource
+	if resource != nil {
+		respCmd.SetResource(resource)
+	}
 	return respCmd
 }
 
